@@ -665,7 +665,7 @@ func init() {
 		Name:  "FLOW-hostpipe",
 		Doc:   "special hosts: the forbidden-domain scan ranges over the result of ToASCII applied to the percent-decoded input, and dominates every non-lax success return and the IPv4 test",
 		Props: []string{"C09"},
-		Floor: 4,
+		Floor: 3,
 		Run: func(c *Ctx, s *core.Sink) {
 			// the domain pipeline: the function that applies the parser's ToASCII
 			var ph *ssa.Function
